@@ -183,10 +183,10 @@ TEXT = {
           "successful Configure + Setup the running dnsmasq forwards to exactly 127.0.0.1#5342 with no-resolv and add-mac iff reporting (or has DNS "
           "off port 53 when the proxy takes :53, without stopping dnsmasq from starting); after Restore from ANY state - including the one an unclean "
           "stop left - nothing loaded points at the proxy or keeps DNS off; after a start/stop cycle from a state without remnants the owner's "
-          "configuration (nvram variables, postconf script) is back, merlin's owner part also surviving any number of unclean stops. Hypotheses are "
+          "configuration (uci port / forwarders / DHCP options, nvram variables, postconf script) is back, merlin's owner part also surviving any number of unclean stops. Hypotheses are "
           "named in the statements: no uncommitted uci changes (openwrt setup), no '\\r\\r\\n' line ends in the postconf (merlin). Tie: the real "
           "packages run in a chroot jail against a multi-call shim, compared call by call with the extracted model.",
-  "note": "Trusted: Coq kernel, extraction, driver, harness, and the shim's semantics of uci / nvram / service tools (stated under assumptions). Defects found and fixed in /repo: F11 openwrt never wrote port=0 after deleting port 53; F22 openwrt Restore deleted the owner's DHCP option; F20 firewalla add-mac unconditional; F12 ddwrt Restore left the NextDNS options in place (unset by 'name=', missing and multi-line variables lost, own options saved after an unclean stop). Open gap: the openwrt clean-cycle statement for uci forwarders / DHCP options is covered by the differential run only.",
+  "note": "Trusted: Coq kernel, extraction, driver, harness, and the shim's semantics of uci / nvram / service tools (stated under assumptions). Defects found and fixed in /repo: F11 openwrt never wrote port=0 after deleting port 53; F22 openwrt Restore deleted the owner's DHCP option; F20 firewalla add-mac unconditional; F12 ddwrt Restore left the NextDNS options in place (unset by 'name=', missing and multi-line variables lost, own options saved after an unclean stop).",
   "technique": "Coq proof over all firmware kinds, settings and pre-existing states (model transcribed from the router packages) + differential check of the real packages in a chroot jail with fake uci/nvram/service tools",
  },
 }
